@@ -379,6 +379,122 @@ Proof.
     exists ARelRet. eexists. split; [discriminate|]. unfold tstep. rewrite Ha, Hrn. reflexivity.
 Qed.
 
+(* ---------- refinement: the events of every execution pass the check applied to the recorded server traces ---------- *)
+Lemma pruns_app σ a b : pruns σ (a ++ b) = match pruns σ a with Some σ' => pruns σ' b | None => None end.
+Proof. revert σ. induction a as [|e a IH]; intros σ; cbn; [reflexivity|]. destruct (pstep σ e); auto. Qed.
+
+Definition PSim (s : tst) (σ : pst) : Prop :=
+  p_read σ = t_handed s /\
+  (forall x, In x (p_started σ) <-> In x (t_runn s ++ t_exec s)) /\
+  (forall x, In x (p_ended σ) <-> In x (t_exec s)) /\
+  (p_rel σ = true <-> t_ap s = ADone).
+
+Lemma reachable_tstep s l s' : treachable good_flags s -> gstep s l = Some s' -> treachable good_flags s'.
+Proof.
+  intros [ls H] Hs. exists (ls ++ [l]). revert H. generalize tinit. induction ls as [|a ls IH]; cbn; intros s0 H.
+  - inversion H; subst. now rewrite Hs.
+  - destruct (gstep s0 a); [|discriminate]. auto.
+Qed.
+
+Lemma psim_step s l s' σ : treachable good_flags s -> gstep s l = Some s' -> PSim s σ ->
+  exists σ', pruns σ (pev l) = Some σ' /\ PSim s' σ'.
+Proof.
+  intros Hr Hs (S1 & S2 & S3 & S4).
+  destruct (reachable_Inv s Hr) as [A B C D E F [G G'] [H H']].
+  destruct (handed_once s Hr) as [_ HN].
+  assert (Hrel : p_rel σ = true -> t_released s = true).
+  { intros X. apply S4 in X. rewrite G, X. reflexivity. }
+  assert (Hnrel : t_released s = false -> p_rel σ = false).
+  { intros X. destruct (p_rel σ) eqn:Y; [|reflexivity]. rewrite (Hrel eq_refl) in X. discriminate. }
+  destruct l; cbn [pev pruns].
+  1-7, 9-10, 13-14: (exists σ; split; [reflexivity|]; unfold tstep in Hs;
+    cbn [add_before_go wait_before_release inc_at_submit good_flags] in Hs;
+    repeat match goal with H : context [match ?x with _ => _ end] |- _ => destruct x eqn:?; try discriminate end;
+    injection Hs as <-; unfold PSim; tsimp; repeat split; auto; try apply S2; try apply S3; try apply S4;
+    try (intros X; apply S4 in X; congruence); try (intros X; discriminate); try (intros X; apply S4; congruence)).
+  - (* CSubmit *)
+    pose proof Hs as Hs0. unfold tstep in Hs. cbn [inc_at_submit good_flags] in Hs.
+    destruct (nth_error (t_conns s) i) as [c|] eqn:Hc; try discriminate. destruct (c_pc c) eqn:Hp; try discriminate.
+    destruct (memp (i, n) (t_handed s)) eqn:Hm; try discriminate. injection Hs as <-.
+    assert (R : p_rel σ = false).
+    { destruct (p_rel σ) eqn:Y; [|reflexivity]. exfalso. eapply nothing_handed_over_after_release; eauto. }
+    unfold pstep. rewrite R, S1, Hm. cbn [orb]. eexists. split; [reflexivity|].
+    unfold PSim; tsimp; cbn [p_read p_started p_ended p_rel]. repeat split; auto; try apply S2; try apply S3; try apply S4.
+    + intros X. discriminate.
+    + intros X. rewrite <- R. now apply S4.
+  - (* PStart *)
+    unfold tstep in Hs. cbn [inc_at_submit good_flags] in Hs.
+    destruct (memp p (t_pend s) && negb (t_released s)) eqn:Hm; try discriminate. injection Hs as <-.
+    apply andb_true_iff in Hm. destruct Hm as [Hm Hnr]. apply memp_In in Hm. apply negb_true_iff in Hnr.
+    assert (R1 : memp p (p_read σ) = true).
+    { apply memp_In. rewrite S1. eapply Permutation_in; [symmetry; exact H|]. apply in_or_app. now left. }
+    assert (R2 : memp p (p_started σ) = false).
+    { apply memp_nIn. intros X. apply S2 in X. eapply NoDup_app_disj; [exact HN|exact Hm|exact X]. }
+    unfold pstep. rewrite (Hnrel Hnr), R1, R2. cbn [orb negb]. eexists. split; [reflexivity|].
+    unfold PSim; tsimp; cbn [p_read p_started p_ended p_rel]. repeat split; auto; try apply S3; try apply S4.
+    + intros X. apply in_app_or in X. destruct X as [X|[<-|[]]].
+      * apply S2 in X. apply in_app_or in X. apply in_or_app. destruct X as [X|X]; [left; apply in_or_app; now left|now right].
+      * apply in_or_app. left. apply in_or_app. right. now left.
+    + intros X. apply in_or_app. apply in_app_or in X. destruct X as [X|X].
+      * apply in_app_or in X. destruct X as [X|[<-|[]]]; [left; apply S2; apply in_or_app; now left|right; now left].
+      * left. apply S2. apply in_or_app. now right.
+    + intros X. discriminate.
+    + intros X. rewrite <- (Hnrel Hnr). now apply S4.
+  - (* PEnd *)
+    unfold tstep in Hs. destruct (memp p (t_runn s)) eqn:Hm; try discriminate. injection Hs as <-. apply memp_In in Hm.
+    assert (R1 : memp p (p_started σ) = true). { apply memp_In. apply S2. apply in_or_app. now left. }
+    assert (R2 : memp p (p_ended σ) = false).
+    { apply memp_nIn. intros X. apply S3 in X. apply NoDup_app_tail in HN. eapply NoDup_app_disj; [exact HN|exact Hm|exact X]. }
+    unfold pstep. rewrite R1, R2. cbn [andb negb]. eexists. split; [reflexivity|].
+    pose proof (rmp_perm p _ Hm) as P.
+    unfold PSim; tsimp; cbn [p_read p_started p_ended p_rel]. repeat split; auto; try apply S4.
+    + intros X. apply S2 in X. apply in_app_or in X. apply in_or_app. destruct X as [X|X].
+      * apply (Permutation_in _ P) in X. destruct X as [<-|X]; [right; apply in_or_app; right; now left|now left].
+      * right. apply in_or_app. now left.
+    + intros X. apply S2. apply in_app_or in X. apply in_or_app. destruct X as [X|X]; [left; eapply in_rmp; eauto|].
+      apply in_app_or in X. destruct X as [X|[<-|[]]]; [now right|now left].
+    + intros X. apply in_app_or in X. apply in_or_app. destruct X as [X|[<-|[]]]; [left; now apply S3|right; now left].
+    + intros X. apply in_app_or in X. apply in_or_app. destruct X as [X|X]; [left; now apply S3|now right].
+  - (* ARelRet *)
+    unfold tstep in Hs. cbn [wait_before_release good_flags] in Hs.
+    destruct (t_ap s) eqn:Ha; try discriminate. destruct (t_runn s) eqn:Hrn; try discriminate. injection Hs as <-.
+    assert (Hrl : t_released s = true) by (rewrite G; reflexivity).
+    destruct (released_only_when_drained s Hr Hrl) as (_ & _ & HP & _).
+    assert (R : p_rel σ = false).
+    { destruct (p_rel σ) eqn:Y; [|reflexivity]. destruct S4 as [S4a _]. specialize (S4a eq_refl). discriminate. }
+    assert (R2 : forallb (fun p => memp p (p_ended σ)) (p_read σ) = true).
+    { apply forallb_forall. intros x Hx. apply memp_In. apply S3. rewrite S1 in Hx. eapply Permutation_in; eauto. }
+    unfold pstep. rewrite R, R2. cbn [negb andb]. eexists. split; [reflexivity|].
+    unfold PSim; tsimp; cbn [p_read p_started p_ended p_rel]. repeat split; auto; try apply S2; try apply S3.
+    all: rewrite Hrn; apply S2.
+Qed.
+
+Theorem server_traces_accepted ls s : trun good_flags tinit ls = Some s -> puse_ok (ptrace good_flags tinit ls) = true.
+Proof.
+  intros Hrun.
+  assert (G : forall ls s0 s1 σ, treachable good_flags s0 -> trun good_flags s0 ls = Some s1 -> PSim s0 σ ->
+              exists σ', pruns σ (ptrace good_flags s0 ls) = Some σ').
+  { clear. induction ls as [|l ls IH]; cbn; intros s0 s1 σ Hr Hrun HS. { eauto. }
+    destruct (gstep s0 l) as [s'|] eqn:E; [|discriminate].
+    destruct (psim_step s0 l s' σ Hr E HS) as (σ1 & P1 & S1).
+    destruct (IH s' s1 σ1 (reachable_tstep _ _ _ Hr E) Hrun S1) as (σ' & P').
+    exists σ'. rewrite pruns_app, P1. exact P'. }
+  assert (R0 : treachable good_flags tinit) by (exists []; reflexivity).
+  assert (S0 : PSim tinit pinit).
+  { unfold PSim. cbn. repeat split; auto; try tauto; intros X; discriminate. }
+  destruct (G ls tinit s pinit R0 Hrun S0) as (σ' & P). unfold puse_ok. now rewrite P.
+Qed.
+
+(* the check is not vacuous: it rejects a return of Handle over a request that was read and not executed, a request read after the
+   return, a start after the return *)
+Example puse_rejects :
+  let a : pj := (0, 1%N) in let b : pj := (0, 2%N) in
+  puse_ok [PRead a; PStartE a; PEndE a; PRead b; PRelRetE] = false /\
+  puse_ok [PRead a; PStartE a; PEndE a; PRelRetE; PRead b] = false /\
+  puse_ok [PRead a; PRead b; PStartE a; PEndE a; PRelRetE] = false /\
+  puse_ok [PRead a; PRead b; PStartE a; PStartE b; PEndE b; PEndE a; PRelRetE] = true.
+Proof. vm_compute. repeat split. Qed.
+
 (* ---------- the other statement orders lose requests: witnesses ---------- *)
 Definition witness_add_inside : list tlabel :=      (* recvDone.Add(1) inside the connection goroutine (seeded C19-m14) *)
   [ACheck; AAccept; ASpawn; TShutdown; ACheck; AWait; ARelCall; ARelRet; CBegin 0; CSubmit 0 1%N].
